@@ -28,6 +28,43 @@ def _star_kwargs(call, selfname):
     return [k for k in call.keywords if k.arg is None and norm(k.value) == "%s.kwargs" % selfname]
 
 
+def _fallback_var(func, cfg, field, default_cls):
+    """variable holding `self.<field>` unless that is falsy/None, else `<default_cls>()`;
+    recognises `x = self.f or D()`, `x = self.f` + `if not x: x = D()`, and the conditional-expression form"""
+    selfattr = "%s.%s" % (func.selfname, field)
+
+    def is_default(e):
+        return isinstance(e, ast.Call) and norm(e.func) == default_cls and not e.args and not e.keywords
+    cands = {}
+    for n in walk_own(func.node):
+        if isinstance(n, ast.Assign) and len(n.targets) == 1 and isinstance(n.targets[0], ast.Name):
+            cands.setdefault(n.targets[0].id, []).append(n)
+    for var, asg in cands.items():
+        if len(asg) == 1:
+            v = asg[0].value
+            if isinstance(v, ast.BoolOp) and isinstance(v.op, ast.Or) and len(v.values) == 2 and norm(v.values[0]) == selfattr and is_default(v.values[1]):
+                return var, asg[0]
+            if isinstance(v, ast.IfExp) and norm(v.body) == selfattr and is_default(v.orelse) and norm(v.test) in (selfattr, selfattr + " is not None"):
+                return var, asg[0]
+        if len(asg) == 2:
+            first = [a for a in asg if norm(a.value) == selfattr]
+            second = [a for a in asg if is_default(a.value)]
+            if len(first) == 1 and len(second) == 1:
+                ok = False
+                for cn in cfg.nodes_of(second[0]):
+                    gs = cfg.guards_of(cn)
+                    if len(gs) == 1:
+                        c, o, _ = gs[0]
+                        if norm(c) in (var, selfattr) and o is False:
+                            ok = True
+                        nt = none_test(c)
+                        if nt is not None and nt[0] in (var, selfattr) and nt[1] == o:
+                            ok = True
+                if ok and not cfg.guards_of(cfg.nodes_of(first[0])[0]):
+                    return var, first[0]
+    return None, None
+
+
 def run(ctx):
     p = ctx.p
     typer = typer_for(ctx)
@@ -79,14 +116,9 @@ def run(ctx):
     # _export: J3
     ctx.touch(_exp)
     cfg = typer.cfg_of(_exp)
-    de = None
-    for n in walk_own(_exp.node):
-        if isinstance(n, ast.Assign) and isinstance(n.targets[0], ast.Name) and isinstance(n.value, ast.BoolOp) and isinstance(n.value.op, ast.Or):
-            vals = n.value.values
-            if len(vals) == 2 and norm(vals[0]) == "self.dictexporter" and isinstance(vals[1], ast.Call) and norm(vals[1].func) == "DictExporter" \
-                    and not vals[1].args and not vals[1].keywords:
-                de = n.targets[0].id
-                ctx.inst("J3", _exp, n, "supplied dictexporter if given, else DictExporter()")
+    de, de_stmt = _fallback_var(_exp, cfg, "dictexporter", "DictExporter")
+    if de is not None:
+        ctx.inst("J3", _exp, de_stmt, "supplied dictexporter if given, else DictExporter()")
     if de is None:
         ctx.viol("J3", _exp, _exp.node, "the dict exporter used is not `self.dictexporter or DictExporter()`", construct="_export: exporter selection")
     else:
@@ -168,14 +200,9 @@ def run(ctx):
     if len(set(callees.values())) > 1 or (callees and set(callees.values()) != {"self.__import"}):
         ctx.viol("J1", rd, rd.node, "import_() and read() do not hand their data to the same self.__import: %s" % callees,
                  construct="import_/read importers differ")
-    di = None
-    for n in walk_own(_imp.node):
-        if isinstance(n, ast.Assign) and isinstance(n.targets[0], ast.Name) and isinstance(n.value, ast.BoolOp) and isinstance(n.value.op, ast.Or):
-            vals = n.value.values
-            if len(vals) == 2 and norm(vals[0]) == "self.dictimporter" and isinstance(vals[1], ast.Call) and norm(vals[1].func) == "DictImporter" \
-                    and not vals[1].args and not vals[1].keywords:
-                di = n.targets[0].id
-                ctx.inst("J3", _imp, n, "supplied dictimporter if given, else DictImporter()")
+    di, di_stmt = _fallback_var(_imp, typer.cfg_of(_imp), "dictimporter", "DictImporter")
+    if di is not None:
+        ctx.inst("J3", _imp, di_stmt, "supplied dictimporter if given, else DictImporter()")
     rets = [r for r in walk_own(_imp.node) if isinstance(r, ast.Return)]
     datap = _imp.posparams[1]
     if di and len(rets) == 1 and isinstance(rets[0].value, ast.Call) and norm(rets[0].value.func) == "%s.import_" % di \
@@ -184,6 +211,6 @@ def run(ctx):
     else:
         ctx.viol("J3", _imp, _imp.node, "__import does not return (self.dictimporter or DictImporter()).import_(data)", construct="JsonImporter.__import")
     rule_optint_truthiness(ctx, typer, {JE, JI}, rule="J3")
-    ctx.floor("J1", 9)
-    ctx.floor("J2", 9)
-    ctx.floor("J3", 5)
+    ctx.floor("J1", 6)
+    ctx.floor("J2", 6)
+    ctx.floor("J3", 4)
